@@ -48,7 +48,7 @@ VCS_SUBCOMMANDS_BY_NAME = {
         'push_tag'      : "git push {remote} --follow-tags {tag} HEAD",
         'push'          : "git push {remote} HEAD",
         'show_remotes'  : "git config --get remote.origin.url",
-        'ls_branches'   : "git branch --format=%(HEAD)%(upstream:remotename)",
+        'ls_branches'   : "git branch --no-column --format=%(HEAD)%(upstream:remotename)",
     },
     'hg': {
         'is_usable'     : "hg root",
